@@ -503,8 +503,10 @@ func (e *Exec) box(st *State, v Term, from types.Type) Term {
 	un := fmt.Sprintf("unbox_%d_%s", id, mangle(srt))
 	e.Ctx.DeclareFun(bn, []string{srt}, SInt)
 	e.Ctx.DeclareFun(un, []string{SInt}, srt)
-	e.Ctx.Axiom(fmt.Sprintf("(forall ((x %s)) (! (and (< (%s x) 0) (= (dyntype (%s x)) %d) (= (%s (%s x)) x)) :pattern ((%s x))))", srt, bn, bn, id, un, bn, bn))
-	return app(SInt, bn, v)
+	b := app(SInt, bn, v)
+	// ground instance of: box(x) < 0, dyntype(box(x)) = id, unbox(box(x)) = x
+	e.Ctx.Assume(st.PC, And(Lt(b, Int(0)), Eq(app(SInt, "dyntype", b), Int(int64(id))), Eq(app(srt, un, b), v)))
+	return b
 }
 
 func (e *Exec) unboxFn(t types.Type) string {
@@ -515,7 +517,6 @@ func (e *Exec) unboxFn(t types.Type) string {
 	un := fmt.Sprintf("unbox_%d_%s", id, mangle(srt))
 	e.Ctx.DeclareFun(bn, []string{srt}, SInt)
 	e.Ctx.DeclareFun(un, []string{SInt}, srt)
-	e.Ctx.Axiom(fmt.Sprintf("(forall ((x %s)) (! (and (< (%s x) 0) (= (dyntype (%s x)) %d) (= (%s (%s x)) x)) :pattern ((%s x))))", srt, bn, bn, id, un, bn, bn))
 	return un
 }
 
@@ -864,6 +865,11 @@ func (e *Exec) evalIndex(st *State, x *ast.IndexExpr) Term {
 		return e.eval(st, x.X)
 	}
 	xt := e.typeOf(x.X)
+	if n, ok := isGmap(xt); ok {
+		m := e.eval(st, x.X)
+		k := e.evalTo(st, x.Index, n.TypeArgs().At(0))
+		return Select(e.S.VMVal(m), k)
+	}
 	switch u := xt.Underlying().(type) {
 	case *types.Map:
 		v, _ := e.mapLookup(st, x, u)
